@@ -229,6 +229,27 @@ pub fn run_consts(out: &mut Out, seed: u64, _n: u64) {
     for x in [0u64, 1, 0xffff_ffff, 0x1_0000_0000, u64::MAX, d7, 0xffff_0000, !0xffff_0000 & !d7, r.next(), r.next()] {
         out.emit(Ev::new("dr7_from_bits").w("x", x).w("trunc", Dr7Value::from_bits_truncate(x).bits()).n("some", Dr7Value::from_bits(x).is_some() as i64).w("mask", Dr7Value::from_bits_truncate(u64::MAX).bits()));
     }
+    // flag operations on a DR7 value touch the named flag bits only
+    for _ in 0..60 {
+        let v0 = Dr7Value::from_bits_truncate(r.next());
+        let f = r.next() & d7;
+        let fl = Dr7Flags::from_bits_retain(f);
+        let (mut a, mut b, mut c, mut d, mut e2) = (v0, v0, v0, v0, v0);
+        a.toggle_flags(fl);
+        b.set_flags(fl, true);
+        c.set_flags(fl, false);
+        d.insert_flags(fl);
+        e2.remove_flags(fl);
+        let x = r.next();
+        out.emit(
+            Ev::new("dr7_flagops")
+                .w("v", v0.bits())
+                .w("f", f)
+                .words("got", &[a.bits(), b.bits(), c.bits(), d.bits(), e2.bits()])
+                .w("x", x)
+                .w("unchecked", unsafe { Dr7Value::from_bits_unchecked(x) }.bits()),
+        );
+    }
     // selector error codes: all u16 in blocks + wide values
     for base in (0..65536u32).step_by(256) {
         let ext: Vec<i64> = (0..256).map(|d| SelectorErrorCode::new_truncate((base + d) as u64).external() as i64).collect();
